@@ -396,9 +396,47 @@ pub struct Collector {
     refused: Mutex<Option<RefusedPort>>,
 }
 
+fn bind_loopback() -> Result<TcpListener, String> {
+    // `bind(127.0.0.1:0)` fails with EADDRINUSE when the ephemeral range is exhausted (tens of
+    // thousands of short-lived connections in TIME_WAIT): wait for ports to come back before giving up
+    let mut last = String::new();
+    for _ in 0..600 {
+        match TcpListener::bind("127.0.0.1:0") {
+            Ok(l) => return Ok(l),
+            Err(e) => last = e.to_string(),
+        }
+        std::thread::sleep(Duration::from_millis(100));
+    }
+    Err(format!("collector: cannot bind 127.0.0.1:0 for 60 s: {last}"))
+}
+
+/// Close without TIME_WAIT: SO_LINGER(0) turns the close into a reset. Only used at teardown, when
+/// nothing is in flight any more.
+fn abort_stream(s: &TcpStream) {
+    use std::os::fd::AsRawFd;
+    let l = libc::linger { l_onoff: 1, l_linger: 0 };
+    unsafe {
+        libc::setsockopt(
+            s.as_raw_fd(),
+            libc::SOL_SOCKET,
+            libc::SO_LINGER,
+            &l as *const _ as *const libc::c_void,
+            std::mem::size_of::<libc::linger>() as libc::socklen_t,
+        );
+    }
+    let _ = s.shutdown(std::net::Shutdown::Both);
+}
+
 impl Collector {
     /// Start the HTTP/1.1 server (the gRPC server starts with the first `grpc_url()` call).
+    /// Panics when no loopback port can be bound for 60 s; checks should prefer [`Collector::try_start`]
+    /// and treat an error as a harness problem (inconclusive).
     pub fn start() -> Collector {
+        Collector::try_start().unwrap_or_else(|e| panic!("{e}"))
+    }
+
+    pub fn try_start() -> Result<Collector, String> {
+        let listener = bind_loopback()?;
         let inner = Arc::new(Inner {
             state: Mutex::new(State {
                 log: Vec::new(),
@@ -414,7 +452,6 @@ impl Collector {
             next_conn: AtomicU64::new(0),
             shutdown: AtomicBool::new(false),
         });
-        let listener = TcpListener::bind("127.0.0.1:0").expect("collector: bind 127.0.0.1:0");
         let http_addr = listener.local_addr().unwrap();
         let i2 = inner.clone();
         let h = std::thread::Builder::new()
@@ -422,7 +459,7 @@ impl Collector {
             .spawn(move || http1::accept_loop(i2, listener))
             .expect("collector: spawn");
         inner.register_thread(h);
-        Collector { inner, http_addr, grpc: Mutex::new(None), refused: Mutex::new(None) }
+        Ok(Collector { inner, http_addr, grpc: Mutex::new(None), refused: Mutex::new(None) })
     }
 
     /// `http://127.0.0.1:<port>`
@@ -435,13 +472,20 @@ impl Collector {
         format!("http://{}{}", self.http_addr, signal.http_path())
     }
 
-    /// Root of the gRPC service (`http://127.0.0.1:<port>`); all three services live on it.
-    pub fn grpc_url(&self) -> String {
+    /// Start the gRPC server if it is not running yet. An error is a harness problem (no port).
+    pub fn ensure_grpc(&self) -> Result<(), String> {
         let mut g = self.grpc.lock().unwrap();
         if g.is_none() {
-            *g = Some(grpc::GrpcServer::start(self.inner.clone()));
+            *g = Some(grpc::GrpcServer::start(self.inner.clone())?);
         }
-        format!("http://{}", g.as_ref().unwrap().addr)
+        Ok(())
+    }
+
+    /// Root of the gRPC service (`http://127.0.0.1:<port>`); all three services live on it.
+    /// Starts the server on first use (panics if that fails; call `ensure_grpc` first to handle it).
+    pub fn grpc_url(&self) -> String {
+        self.ensure_grpc().unwrap_or_else(|e| panic!("{e}"));
+        format!("http://{}", self.grpc.lock().unwrap().as_ref().unwrap().addr)
     }
 
     /// `http://127.0.0.1:<port>` of a port that refuses connections for the life of the collector.
@@ -533,7 +577,7 @@ impl Collector {
             (std::mem::take(&mut st.streams), std::mem::take(&mut st.threads))
         };
         for s in &streams {
-            let _ = s.shutdown(std::net::Shutdown::Both);
+            abort_stream(s);
         }
         if let Some(g) = self.grpc.lock().unwrap().take() {
             g.stop();
@@ -551,7 +595,7 @@ impl Collector {
                 break;
             }
             for s in &streams {
-                let _ = s.shutdown(std::net::Shutdown::Both);
+                abort_stream(s);
             }
             for t in threads {
                 let _ = t.join();
